@@ -67,8 +67,18 @@ def props_of(patch_path):
     return m.group(1).replace(",", " ").split() if m else []
 
 
-def run_one(patch_path, props, tier, repo, verif, baseline=True):
+def baseline_key(patch_path):
+    import hashlib
+    head = sh(["git", "-C", "/repo", "rev-parse", "HEAD"]).stdout.strip()
+    body = "".join(l for l in open(patch_path) if not l.startswith("#"))
+    return hashlib.sha256((head + "\n" + body).encode()).hexdigest()[:24]
+
+
+def run_one(patch_path, props, tier, repo, verif, baseline=True, cache=None):
     out = []
+    key = baseline_key(patch_path)
+    if cache is not None and cache.get(key) == "ok":
+        baseline = False  # this exact patch on this exact repository commit already passed the 58 baseline tests
     sh(["git", "checkout", "-q", "--", "."], cwd=repo)
     sh(["git", "clean", "-fdq"], cwd=repo)
     r = sh(["git", "apply", "--whitespace=nowarn", patch_path], cwd=repo)
@@ -86,6 +96,8 @@ def run_one(patch_path, props, tier, repo, verif, baseline=True):
         if bad or t.returncode != 0 or passed < 58:
             sh(["git", "checkout", "-q", "--", "."], cwd=repo)
             return [(p, "BASELINE-FAILS", f"cargo test: {passed} passed, rc={t.returncode}, {bad[:2]}") for p in props]
+        if cache is not None:
+            cache[key] = "ok"
     for pid in props:
         t0 = time.time()
         r = sh([os.path.join(verif, "check"), pid, tier], cwd=verif, env=env, timeout=4 * 3600)
@@ -144,7 +156,7 @@ def main():
         if not props:
             print(f"{name}: no properties named", flush=True)
             continue
-        for pid, verdict, detail in run_one(patch, props, tier, repo, verif):
+        for pid, verdict, detail in run_one(patch, props, tier, repo, verif, cache=results.setdefault("_baseline_ok", {})):
             print(f"{verdict:13s} {name} {pid} :: {detail}", flush=True)
             results.setdefault(name, {})[pid] = {"verdict": verdict, "tier": tier, "detail": detail}
         json.dump(results, open(rf, "w"), indent=1, sort_keys=True)
